@@ -1035,7 +1035,14 @@ func ruleC14Union(c *Ctx) {
 	name := FnName(fn)
 	c.Analysed(name)
 	cur := p.Field("ast", "unionSetCursor", "current")
-	fwd := p.Field("ast", "unionSetCursor", "forward")
+	// the direction as the cursor keeps it: the field its constructor fills from the `forward` argument, and the
+	// value it gets for each of the two directions (the bool itself on the pinned tree; a named constant works
+	// the same way)
+	fwd, dirVal := directionField(c, p.Func("ast", "NewUnionSetCursor"), p.Named("ast", "unionSetCursor"))
+	if fwd == nil {
+		fwd = p.Field("ast", "unionSetCursor", "forward")
+		dirVal = map[bool]AV{true: avBool(true), false: avBool(false)}
+	}
 	sideOf := func(v ssa.Value) string {
 		if f, base := loadedField(v); f != nil && base == ssa.Value(fn.Params[0]) && (f.Name() == "fst" || f.Name() == "snd") {
 			return f.Name()
@@ -1054,7 +1061,7 @@ func ruleC14Union(c *Ctx) {
 					rows++
 					oracle := func(v ssa.Value) (AV, bool) {
 						if f, base := loadedField(v); sameVar(f, fwd) && base == ssa.Value(fn.Params[0]) {
-							return avBool(forward), true
+							return dirVal[forward], true
 						}
 						call, ok := v.(*ssa.Call)
 						if !ok {
@@ -1483,4 +1490,64 @@ func decideReverseSeek(c *Ctx, seekFn, nextFn *ssa.Function) string {
 		}
 	}
 	return ""
+}
+
+// directionField: the field of typ that constructor ctor fills from its bool parameter, with the value the field
+// gets for true and for false (decided by running the constructor both ways).
+func directionField(c *Ctx, ctorObj *types.Func, typ *types.Named) (*types.Var, map[bool]AV) {
+	p := c.P
+	ctor := p.SSAFunc(ctorObj)
+	var flag *ssa.Parameter
+	for _, prm := range ctor.Params {
+		if b, isB := prm.Type().Underlying().(*types.Basic); isB && b.Kind() == types.Bool {
+			flag = prm
+		}
+	}
+	st, _ := typ.Underlying().(*types.Struct)
+	if flag == nil || st == nil {
+		return nil, nil
+	}
+	var obj *ssa.Alloc
+	for _, b := range ctor.Blocks {
+		for _, in := range b.Instrs {
+			if al, isAl := in.(*ssa.Alloc); isAl && namedOf(al.Type()) == typ {
+				obj = al
+			}
+		}
+	}
+	if obj == nil {
+		return nil, nil
+	}
+	vals := map[bool]map[string]AV{}
+	for _, fv := range []bool{true, false} {
+		fv := fv
+		_, mem, err := DecideMem(ctor, func(v ssa.Value) (AV, bool) {
+			if v == ssa.Value(flag) {
+				return avBool(fv), true
+			}
+			if prm, isPrm := v.(*ssa.Parameter); isPrm {
+				return AV{Kind: "nonnil", Sym: "param:" + prm.Name()}, true
+			}
+			return AV{}, false
+		})
+		if err != "" {
+			return nil, nil
+		}
+		vals[fv] = mem
+	}
+	c.Analysed(FnName(ctor))
+	var fld *types.Var
+	out := map[bool]AV{}
+	for i := 0; i < st.NumFields(); i++ {
+		key := fmt.Sprintf("a%p.f%d", obj, i)
+		a, b := vals[true][key], vals[false][key]
+		if a.Kind == "const" && b.Kind == "const" && !constant.Compare(a.C, token.EQL, b.C) {
+			if fld != nil {
+				return nil, nil
+			}
+			fld = st.Field(i)
+			out[true], out[false] = a, b
+		}
+	}
+	return fld, out
 }
